@@ -21,7 +21,7 @@ RULE = ('memory-stress templates (VLAs of int/byte/bool/string with lengths -327
         'literals whose elements call allocating functions; recursion with local arrays; every write routine with arrays at the top '
         'of the array region; by-reference mutation) + random "memory" profile and time-travel programs; each swept over stack sizes '
         'S*-6..S*+6 (S* = smallest stack reproducing the generous outcome, by binary search) and a ladder; a case is one '
-        '(program, args, word, stack); non-trivial = the run ended in stack_overflow or ran at a stack within 6 words of S*; the 448 value-capture idioms of gen/idioms.py (an index read before a call that moves it out of range) run under M-SAN at a generous stack; '
+        '(program, args, word, stack); non-trivial = the run ended in stack_overflow or ran at a stack within 6 words of S*; the 448 value-capture idioms of gen/idioms.py (an index read before a call that moves it out of range) and the 319 entry-point signatures (array parameter before/between/after scalars) run under M-SAN at a generous stack; '
         'distinct by hash of (source, args, word, stack)')
 ASSUMPTIONS = common.ISA_ASSUMPTIONS[:3] + [
     'the stack size only enters the output through the `.zero <n>w` line (asserted on every S* by recompiling)',
@@ -196,6 +196,10 @@ def run_shard(spec):
                         observe(res, src, args, word, tag)
                 if (k // spec['parts']) % 6 == 0:
                     sweep(res, src, idioms.CAPTURE_ARGS[0], 2, tag, False)
+        for k, (tag, prog, args) in enumerate(idioms.entry_programs()):
+            if k % spec['parts'] == spec['part']:
+                for word in ((2 + k % 3,) if spec['tier'] == 'quick' else (2, 3, 4)):
+                    observe(res, A.render(prog), args, word, tag)
         return res
     if spec['kind'] == 'templates':
         cs = memprogs.cases(spec['seed'], 0)
